@@ -14,6 +14,7 @@ SCHEMA = f'''<xs:schema {XS} targetNamespace="urn:t" xmlns:t="urn:t" elementForm
  <xs:element name="r"><xs:complexType><xs:sequence>
    <xs:element name="a" maxOccurs="unbounded"><xs:complexType><xs:sequence>
        <xs:element name="v" type="xs:int" maxOccurs="unbounded"/>
+       <xs:element name="w" type="xs:QName" minOccurs="0"/>
        <xs:element name="b" minOccurs="0"><xs:complexType><xs:sequence><xs:element name="v" type="xs:date"/></xs:sequence></xs:complexType></xs:element>
      </xs:sequence></xs:complexType><xs:unique name="UV"><xs:selector xpath="t:v"/><xs:field xpath="."/></xs:unique></xs:element>
    <xs:element ref="t:g" minOccurs="0" maxOccurs="unbounded"/>
@@ -29,7 +30,8 @@ def gen(rng):
     for i in range(rng.randrange(1, 4)):
         vs = ''.join(f'<t:v>{rng.choice(["1", "22", "x", "1"])}</t:v>' for _ in range(rng.randrange(1, 4)))
         b = f'<t:b><t:v>{rng.choice(["2020-01-01", "nope"])}</t:v></t:b>' if rng.random() < .6 else ''
-        parts.append(f'<t:a>{vs}{b}</t:a>')
+        w = f'<t:w>{rng.choice(["p:x", "t:y", "z"])}</t:w>' if rng.random() < .5 else ''
+        parts.append(f'<t:a{rng.choice(["", "", " xmlns:p=" + chr(34) + "urn:p" + chr(34)])}>{vs}{w}{b}</t:a>')
     for i in range(rng.randrange(0, 3)): parts.append(rng.choice(['<t:g>tok</t:g>', '<t:g2>nc</t:g2>', '<t:g2>1bad</t:g2>']))
     return '<t:r xmlns:t="urn:t">' + ''.join(parts) + '</t:r>'
 
@@ -49,13 +51,13 @@ def eval_doc(args):
     import xmlschema
     from xml.etree import ElementTree as ET
     s = _S.get(ver) or _S.setdefault(ver, _cls(ver)(SCHEMA))
-    root = ET.fromstring(doc); parent = {c: p for p in root.iter() for c in p}
+    res = xmlschema.XMLResource(doc); root = res.root; parent = {c: p for p in root.iter() for c in p}       # from text: prefixes declared in the document stay known
     governing = {}
 
     def hook(e, x): governing[e] = x; return False
-    bad = []; n = 0
+    bad = []; n = 0; known = []; known2 = []
     try:
-        res = xmlschema.XMLResource(root); full_errs = list(s.iter_errors(res, validation_hook=hook, namespaces=NS))
+        full_errs = list(s.iter_errors(res, validation_hook=hook, namespaces=NS))
         for e in root.iter():
             n += 1
             found = s.find(path_of(root, e, False, parent), NS); gov = governing.get(e)
@@ -69,7 +71,9 @@ def eval_doc(args):
                 # a uniqueness error relates two nodes of one scope element (a): when a single v is selected its partner lies outside the part, so
                 # the error is not an error "of that part"; it is compared for parts that contain the scope element and for non-positional paths
                 if e.tag.endswith('}v'): want = [w for w in want if not w.startswith('duplicated value')]
-                if sorted(perrs) != sorted(want): bad.append(('partial errors', p, perrs[:2], want[:2]))
+                if sorted(perrs) != sorted(want):
+                    if e.tag.endswith('}w') and 'xmlns:p' in doc and [x for x in perrs if 'unmapped prefix' not in x] == [x for x in want if 'unmapped prefix' not in x]: known.append(p)
+                    else: bad.append(('partial errors', p, perrs[:2], want[:2]))
                 pd = s.decode(res, path=p, namespaces=NS, validation='lax')[0]
                 fd = None
         # non-positional paths select elements under several instances of an ancestor; the identity constraint declared on that ancestor
@@ -80,7 +84,9 @@ def eval_doc(args):
             sub = set(x for e in sel for x in e.iter())
             perrs = [x.reason for x in s.iter_errors(res, path=p, namespaces=NS)]
             want = [x.reason for x in full_errs if x.elem in sub]
-            if sorted(perrs) != sorted(want): bad.append(('partial errors (non-positional path)', p, perrs[:3], want[:3]))
+            if sorted(perrs) != sorted(want):
+                if p.endswith('/t:w') and 'xmlns:p' in doc and [x for x in perrs if 'unmapped prefix' not in x] == [x for x in want if 'unmapped prefix' not in x]: known.append(p)
+                else: bad.append(('partial errors (non-positional path)', p, perrs[:3], want[:3]))
         for md in (1, 2):
             derrs = [(x.reason, x.path) for x in s.iter_errors(res, max_depth=md, namespaces=NS)]
 
@@ -103,10 +109,13 @@ def eval_doc(args):
                 got = part[0]
                 if want is not None and not isinstance(want, list): want = [want]
                 if got is not None and not isinstance(got, list): got = [got]
-                if (want or None) != (got or None): bad.append(('default-namespace path', ns, upath, str(got)[:60], str(want)[:60]))
+                if (want or None) != (got or None):
+                    def strip(d): return {k: strip(v) for k, v in d.items() if not k.startswith('@xmlns')} if isinstance(d, dict) else ([strip(x) for x in d] if isinstance(d, list) else d)
+                    if strip(want or None) == strip(got or None): known2.append(upath)
+                    else: bad.append(('default-namespace path', ns, upath, str(got)[:60], str(want)[:60]))
     except Exception as e:
         bad.append(('exception', f'{type(e).__name__}: {e}'))
-    return dict(doc=doc, ver=ver, cases=n, bad=bad[:3])
+    return dict(doc=doc, ver=ver, cases=n, bad=bad[:3], known=known, known2=known2)
 
 
 def run(tier, seed, open_findings):
@@ -116,10 +125,17 @@ def run(tier, seed, open_findings):
     res = pmap(eval_doc, jobs)
     fails = [dict(case=dict(doc=r['doc'], ver=r['ver']), observed=list(b), required='find = governing declaration; partial = restriction of the whole') for r in res for b in r['bad']]
     cases = sum(r['cases'] for r in res)
-    return [result('C20.paths_and_partial_validation', f'{len(docs)} generated documents x every element x (find, positional partial errors, max_depth 1-2) x 2 classes', cases, fails,
+    K = 'C20-partial-validation-ignores-intermediate-xmlns'; nk = sum(len(r['known']) for r in res)
+    if nk and K not in open_findings:
+        fails += [dict(case=dict(doc=r['doc'], ver=r['ver']), observed=['partial errors differ by unmapped-prefix errors', r['known'][0]], required='partial = restriction of the whole') for r in res if r['known']]
+    K2 = 'C20-partial-decode-drops-xmlns-declarations'; nk2 = sum(len(r['known2']) for r in res)
+    if nk2 and K2 not in open_findings:
+        fails += [dict(case=dict(doc=r['doc'], ver=r['ver']), observed=['partial data lacks the @xmlns entries of the selected element', r['known2'][0]], required='partial = restriction of the whole') for r in res if r['known2']]
+    kn = {k: v for k, v in ((K, nk), (K2, nk2)) if v and k in open_findings}
+    return [result('C20.paths_and_partial_validation', f'{len(docs)} generated documents x every element x (find, positional partial errors, max_depth 1-2) x 2 classes', cases, fails, known=kn,
                    samples=[dict(doc=docs[0][:160])], distinct=cases)]
 
 
 def replay(check_name, case):
     r = eval_doc((case['ver'], case['doc']))
-    return dict(ok=not r['bad'], observed=r['bad'], required='find = governing declaration; partial = restriction')
+    return dict(ok=not r['bad'] and not r['known'] and not r['known2'], observed=r['bad'] or r['known'] or r['known2'], required='find = governing declaration; partial = restriction')
